@@ -57,7 +57,7 @@ def _cl(x):
 class FnContract:
     def __init__(self, file, path, requires=(), ensures=(), decreases=None, loops=None,
                  closures=None, prologue=None, attrs=(), tags=None, ret='ret', drop=False,
-                 rename=None, body_proofs=None, no_ret=False, via=None, epilogue=None):
+                 rename=None, body_proofs=None, no_ret=False, via=None, epilogue=None, outline=None):
         self.file = file
         self.path = path
         self.requires = [_cl(c) for c in requires]
@@ -76,6 +76,9 @@ class FnContract:
         # body_proofs: list of (regex on the source text of the fn body, text inserted BEFORE the match)
         self.body_proofs = body_proofs or []
         self.no_ret = no_ret
+        # R14 outline: list of dict(rx=regex on the body text, name=helper name, sig='(params) -> Ret' (may start with <generics>),
+        #   call=replacement expression, ensures=[clause text], why=reason)
+        self.outline = outline or []
         self.epilogue = epilogue   # ghost text inserted before the closing brace of a body that ends in a statement
         self.used = False
 
@@ -464,6 +467,16 @@ class Splicer:
         ins(r['item'][0], '', {'fn_start': fnkey})
         ins(r['item'][1], '', {'fn_end': fnkey})
 
+    def emit_outline(self, f, fnkey, o, src_text):
+        ens = (' ensures ' + ', '.join(o['ensures'])) if o.get('ensures') else ''
+        body = src_text
+        for (a, b) in o.get('subst', []):
+            body = body.replace(a, b)   # e.g. `self` -> the helper's parameter name
+        helper = '\n#[verifier::external_body] /* R14: outlined from %s (%s) */\nfn %s%s%s\n{ %s%s }\n' % (fnkey, o.get('why', 'not encodable by Verus'), o['name'], o['sig'], ens, o.get('bind', ''), body)
+        self.u.appendix[f] = self.u.appendix.get(f, '') + helper
+        self.g.count('R14')
+        self.g.dropped.append('%s: expression `%s` of %s outlined into external_body helper %s (R14)' % (f, src_text[:80], fnkey, o['name']))
+
     def rewrite_body(self, f, r, data, ins, dele, fc):
         u = self.u
         fnkey = '%s:%s' % (f, r['path'])
@@ -503,6 +516,13 @@ class Splicer:
                 # R4: `for PAT in EXPR BODY` -> `{ let mut it = IntoIterator::into_iter(EXPR); loop INV { let Some(PAT) = it.next() else { break; }; BODY' } }`
                 pat = data[lp['pat'][0]:lp['pat'][1]].decode()
                 expr = data[lp['expr'][0]:lp['expr'][1]].decode()
+                for o in (getattr(fc, 'outline', []) if fc else []):
+                    mo = re.fullmatch(o['rx'], expr.strip())
+                    if mo:
+                        # R14 inside the header of an R4-desugared loop: the whole iterated expression is outlined
+                        self.emit_outline(f, fnkey, o, expr.strip())
+                        expr = o['call']
+                        o['_done'] = True
                 itn = '__it%d' % i
                 nodec = '' if spec.get('decreases') else '#[verifier::exec_allows_no_decreases_clause] '
                 dele(lp['kw'][0], lp['body'][0], 'R4',
@@ -628,6 +648,21 @@ class Splicer:
                     at = mm.end() if after else mm.start()
                     ins(b0 + len(txt[:at].encode()), (' ' + text) if after else (text + ' '), {'rule': 'R8'})
                     self.g.count('R8')
+            # R14: an expression Verus cannot encode (iterator adapters, ...) is OUTLINED: the matched source text becomes the
+            # body of a new #[verifier::external_body] helper (contract assumed, listed), the site becomes a call of it
+            for o in getattr(fc, 'outline', []):
+                if o.get('_done'):
+                    continue
+                ms = list(re.finditer(o['rx'], txt))
+                if len(ms) != 1:
+                    self.lose('outlined expression %r in %s (%d matches)' % (o['rx'], fnkey, len(ms)), tags)
+                    continue
+                mm = ms[0]
+                s0 = b0 + len(txt[:mm.start()].encode())
+                e0 = b0 + len(txt[:mm.end()].encode())
+                dele(s0, e0, 'R14', o['call'])
+                self.g.rewrites['R14'] = self.g.rewrites.get('R14', 0) - 1
+                self.emit_outline(f, fnkey, o, mm.group(0))
             for (rx, text, wtags, wname) in getattr(fc, 'wrap_exprs', []):
                 ms = list(re.finditer(rx, txt))
                 if not ms:
